@@ -158,6 +158,16 @@ pub broadcast proof fn lemma_loads_tracked_refl(t0: Seq<Ev>)
     ensures #[trigger] loads_tracked(t0, t0, Seq::<ReplyFut>::empty()),
 {
 }
+// total lemma (no precondition): if every tracked load future was awaited with a positive acknowledgement, all loads are acknowledged
+pub proof fn lemma_all_awaited(t0: Seq<Ev>, t1: Seq<Ev>, futs: Seq<ReplyFut>)
+    ensures (all_loads_acked(t0) && loads_tracked(t0, t1, futs) && (forall|j: int| 0 <= j < futs.len() ==> acked_ok((#[trigger] futs[j]).ticket@))) ==> all_loads_acked(t1),
+{
+    if all_loads_acked(t0) && loads_tracked(t0, t1, futs) && (forall|j: int| 0 <= j < futs.len() ==> acked_ok((#[trigger] futs[j]).ticket@)) {
+        assert forall|i: int| 0 <= i < t1.len() implies (#[trigger] t1[i] matches Ev::Sent(Op::LoadConfiguration, k) ==> acked_ok(k)) by {
+            if i < t0.len() { assert(t1[i] == t1.subrange(0, t0.len() as int)[i]); }
+        }
+    }
+}
 pub broadcast group trace_lemmas { lemma_db_open_push, lemma_commit_sent_push, lemma_commit_acked_push, lemma_all_loads_acked_push, lemma_loads_tracked_push, lemma_loads_tracked_refl }
 
 pub mod client {
@@ -192,7 +202,7 @@ impl Client<Open> {
                     db_open(old(self).session.trace@) ==> db_open(self.session.trace@),
                     !commit_sent(old(self).session.trace@) ==> !commit_sent(self.session.trace@),
                 decreases it__0.left@,
-//@loop 2
+//@loop 2 optional
             invariant
                 self.session.trace@ == trace_after_send, it__1.items@ == futs_sent, 0 <= it__1.pos@ <= it__1.items@.len(),
                 loads_tracked(old(self).session.trace@, trace_after_send, futs_sent), all_loads_acked(old(self).session.trace@),
@@ -201,15 +211,11 @@ impl Client<Open> {
                 forall|j: int| 0 <= j < it__1.pos@ ==> acked_ok((#[trigger] it__1.items@[j]).ticket@),   // OBL:C04.load_config.awaited_loads_acknowledged
             ensures it__1.pos@ == it__1.items@.len(),
             decreases it__1.items@.len() - it__1.pos@,
-//@before /let mut it__1 = /
+//@after /let (mut )?updates = \{/
         let ghost trace_after_send = self.session.trace@;
         let ghost futs_sent = updates@;
 //@before /^\s*Ok\(self\)/
-        proof {
-            assert forall|i: int| 0 <= i < self.session.trace@.len() implies (#[trigger] self.session.trace@[i] matches Ev::Sent(Op::LoadConfiguration, k) ==> acked_ok(k)) by {
-                if i < old(self).session.trace@.len() { assert(self.session.trace@[i] == old(self).session.trace@.subrange(0, old(self).session.trace@.len() as int)[i]); }
-            }
-        }
+        proof { lemma_all_awaited(old(self).session.trace@, self.session.trace@, futs_sent); }
 //@end
 //@extract id=client_commit_config file=junos-agent/src/netconf/mod.rs impl=/impl<T: Target> Client<T, Open>/ fn=commit_config rules=R1,R2,R3,R17,R22 awaitcall=1
 //@sig pub fn commit_config(&mut self) -> (res: Result<(), AnyErr>)
